@@ -27,6 +27,13 @@ mod forge;
 mod prim;
 mod msgcfg;
 
+pub fn c12b_rand(seed: u64, n: usize) -> Vec<u8> {
+    use rand::RngCore;
+    let mut v = vec![0u8; n];
+    common::rng(seed).fill_bytes(&mut v);
+    v
+}
+
 fn arg(args: &[String], name: &str, default: &str) -> String {
     args.iter()
         .position(|a| a == name)
